@@ -5,7 +5,10 @@ set -e
 cd "$(dirname "$0")"
 export CARGO_NET_OFFLINE=true
 python3 tools/gen_tables.py || true
-(cd coq && coq_makefile -f _CoqProject -o Makefile >/dev/null 2>&1 && timeout 3000 make -j16 >/dev/null 2>make.log || (tail -30 make.log; exit 1))
+# -k: a statement file that does not build is reported by the check that owns it, it must not
+# keep the runner and the other properties from being built
+python3 -c "import sys; sys.path.insert(0, 'check'); import lib; lib.gen_coqproject()"
+(cd coq && coq_makefile -f _CoqProject -o Makefile >/dev/null 2>&1 && timeout 3000 make -k -j16 >/dev/null 2>make.log || (tail -30 make.log; echo "coq build incomplete (continuing)"))
 ./runner/build.sh
 if [ -d harness ]; then
   (cd harness && cargo build --offline --release --target-dir /verif/harness/target 2>&1 | tail -3)
